@@ -10,6 +10,7 @@
 //! This transforms O(n * m) correlated subquery execution into O(n + m).
 
 use crate::error::{QueryError, Result};
+use crate::physical::operators::spillable::collect_input_partitions_concurrently;
 use crate::physical::PhysicalOperator;
 use crate::planner::{Expr, JoinType};
 use arrow::array::{
@@ -20,7 +21,6 @@ use arrow::compute;
 use arrow::datatypes::SchemaRef;
 use async_trait::async_trait;
 use futures::stream::{self, BoxStream};
-use futures::StreamExt;
 use hashbrown::HashMap;
 use std::hash::{Hash, Hasher};
 use std::sync::{Arc, RwLock};
@@ -149,13 +149,9 @@ impl PhysicalOperator for DelimJoinExec {
     async fn execute(&self, partition: usize) -> Result<BoxStream<'static, Result<RecordBatch>>> {
         crate::physical::check_partition(self, partition)?;
 
-        // Step 1: Collect all rows from the outer side
-        let mut outer_batches = Vec::new();
-        let outer_stream = self.left.execute(0).await?;
-        let collected: Vec<Result<RecordBatch>> = outer_stream.collect().await;
-        for batch_result in collected {
-            outer_batches.push(batch_result?);
-        }
+        // Step 1: Collect all rows from the outer side — every partition it
+        // declares, not just partition 0.
+        let (outer_batches, _) = collect_input_partitions_concurrently(&self.left).await?;
 
         if outer_batches.is_empty() {
             return Ok(Box::pin(stream::empty()));
@@ -171,12 +167,7 @@ impl PhysicalOperator for DelimJoinExec {
             .set_distinct_values(distinct_batch.clone(), distinct_batch.schema());
 
         // Step 4: Execute the inner side (which will use DelimGet with our values)
-        let mut inner_batches = Vec::new();
-        let inner_stream = self.right.execute(0).await?;
-        let collected: Vec<Result<RecordBatch>> = inner_stream.collect().await;
-        for batch_result in collected {
-            inner_batches.push(batch_result?);
-        }
+        let (inner_batches, _) = collect_input_partitions_concurrently(&self.right).await?;
 
         // Step 5: Build hash table from inner results
         let inner_hash = build_hash_table(&inner_batches, &self.on)?;
